@@ -19,8 +19,8 @@ Definition call_answers_spec (eng : engine) (tbl : list sroute) (q : request) (k
 
 (* ------------------------------------------------------------------ finding guards *)
 
-(** C03-F2: the route ends in a free wildcard (its matcher gets the parent node's
-    keys and the captures without the free wildcard's value) *)
+(** C03-F2 (pinned tree, before commit 88da16a): the route ends in a free wildcard (its
+    matcher gets the parent node's keys and the captures without the free wildcard's value) *)
 Definition guard_F2 (s : sroute) : bool := ends_in_free (sr_tokens s).
 
 (** ... which changes the answer when the route has path_params *)
@@ -44,23 +44,23 @@ Definition guard_F3 (tbl : list sroute) (s : sroute) : bool :=
 
 Definition calls_eqb := list_eqb call_eqb.
 
-(** C03-F5: the request is served differently by the tree with and without the
-    repair of [findNode]'s dead-end returns *)
-Definition guard_F5 (fx2 : bool) (eng : engine) (es : list centry) (t : tree) (q : request) : bool :=
-  let a := serve fx2 false eng es t q in
-  let b := serve fx2 true eng es t q in
+(** C03-F5 (pinned tree, before commit 16cf34b): the request is served differently by the
+    tree with and without the repair of [findNode]'s dead-end returns *)
+Definition guard_F5 (fx2 fx7 : bool) (eng : engine) (es : list centry) (t : tree) (q : request) : bool :=
+  let a := serve fx2 false fx7 eng es t q in
+  let b := serve fx2 true fx7 eng es t q in
   negb (outcome_eqb (fst a) (fst b) && calls_eqb (snd a) (snd b)).
 
 (* ------------------------------------------------------------------ findings: witnesses on loaded rule sets *)
 
-Definition served (ds : list ruledef) (q : request) : option (outcome * list call) :=
-  match load ds with Loaded es t => Some (serve false false eng_none es t q) | _ => None end.
+Definition served (fx2 fx5 fx7 : bool) (ds : list ruledef) (q : request) : option (outcome * list call) :=
+  match load ds with Loaded es t => Some (serve fx2 fx5 fx7 eng_none es t q) | _ => None end.
 
 (** C03-F2: /f/*rest with path_params rest = "x/y"; GET /f/x/y: the matcher is asked
     with no keys and no values, answers no, the request finds no rule *)
-Lemma F2_refuted :
+Lemma F2_pinned_refuted :
   exists ds q k s segs,
-    served ds q = Some (ONone, [k]) /\
+    served false true true ds q = Some (ONone, [k]) /\
     nth_error (flat_routes 0 ds) (k_vid k) = Some s /\ guard_F2_params s = true /\
     sr_segs s q = Some segs /\
     ~ call_sees_route (flat_routes 0 ds) q k /\
@@ -78,7 +78,7 @@ Qed.
     with the captures {b: 1, c: 2/3} *)
 Lemma F3_refuted :
   exists ds q k s segs caps sc,
-    served ds q = Some (ORule 0 caps false, [k]) /\
+    served true true true ds q = Some (ORule 0 caps false, [k]) /\
     nth_error (flat_routes 0 ds) (k_vid k) = Some s /\ sr_rule s = 0 /\
     guard_F3 (flat_routes 0 ds) s = true /\
     sr_segs s q = Some segs /\
@@ -94,10 +94,10 @@ Qed.
 
 (** C03-F5: /:a/b/c and /:a/:x; GET /1/b is served by the second rule with the
     captures {a: b}; with a path_params condition on x the lookup panics *)
-Lemma F5_refuted :
+Lemma F5_pinned_refuted :
   exists ds q k s segs caps sc es t,
-    load ds = Loaded es t /\ guard_F5 false eng_none es t q = true /\
-    served ds q = Some (ORule 1 caps false, [k]) /\
+    load ds = Loaded es t /\ guard_F5 true true eng_none es t q = true /\
+    served true false true ds q = Some (ORule 1 caps false, [k]) /\
     nth_error (flat_routes 0 ds) (k_vid k) = Some s /\
     sr_segs s q = Some segs /\
     ~ call_sees_route (flat_routes 0 ds) q k /\
@@ -113,10 +113,10 @@ Proof.
   intro H. destruct (H _ _ eq_refl eq_refl) as [_ H2]. vm_compute in H2. discriminate.
 Qed.
 
-Lemma F5_panic_refuted :
+Lemma F5_pinned_panic_refuted :
   exists ds q k es t,
-    load ds = Loaded es t /\ guard_F5 false eng_none es t q = true /\
-    served ds q = Some (OPanic, [k]) /\ k_res k = MPanic.
+    load ds = Loaded es t /\ guard_F5 true true eng_none es t q = true /\
+    served true false true ds q = Some (OPanic, [k]) /\ k_res k = MPanic.
 Proof.
   exists [w_rule [] [] [w_route "/:a/b/c" []] SOff;
           w_rule [] [] [w_route "/:a/:x" [{| pp_name := "x"; pp_tm := w_exact "b" |}]] SOff].
